@@ -4,6 +4,7 @@
 //! usage: vharness gen <stream> <seed> <tier> <outfile>      (cases + lines, JSON lines)
 //!        vharness replay <casefile> <outfile>               (one case, as stored in a replay file)
 mod brute;
+mod cdedb;
 mod common;
 mod gen;
 mod sched;
@@ -33,6 +34,7 @@ fn gen_cases(stream: &str, seed: u64, tier: &str) -> Vec<Case> {
         "engine" => streams::gen_engine(&mut r, tier, false, "engine"),
         "engine-fault" => streams::gen_engine(&mut r, tier, true, "engine-fault"),
         "selections" => streams::gen_selections(&mut r, tier),
+        "rooms" => streams::gen_rooms(&mut r, tier),
         _ => {
             eprintln!("unknown stream {}", stream);
             std::process::exit(2)
@@ -48,6 +50,7 @@ fn run_case(stream: &str, data: &Value) -> Vec<common::Line> {
         "roompairs" => streams::run_roompairs(data),
         "engine" | "engine-fault" => streams::run_engine(data),
         "selections" => streams::run_selections(data),
+        "rooms" => streams::run_rooms(data),
         _ => {
             eprintln!("unknown stream {}", stream);
             std::process::exit(2)
@@ -109,6 +112,7 @@ fn main() {
                 writeln!(out, "{}", l.to_json(&stream, 0)).unwrap();
             }
         }
+        Some("cdedb-read") => cdedb::run(&args[2], &args[3]),
         _ => {
             eprintln!("usage: vharness gen <stream> <seed> <tier> <out> [corpusdir] | replay <file> <out>");
             std::process::exit(2);
